@@ -69,6 +69,14 @@ a function that locks for itself) and then archives, persists, shifts and advanc
 critical section: no report or query can run between the archive and the shift. -/
 theorem rotation_single_section : lockedTail Gen.Locks.u_server_GCAServer_migrateReports = true := by decide
 
+/-- Fields of the lock-protected objects that no mutex guards are configuration: the only methods that
+assign to one are the three listener launchers, which `NewGCAServer` calls before it returns the server
+(the port each listener was given). Anything else - a lazily created limiter, a cached value - would be an
+unsynchronised write on a running server. -/
+theorem unguarded_writes_only_at_start : Gen.Locks.unguardedWrites =
+    ["server.GCAServer.launchAPI:httpPort", "server.GCAServer.launchListenForSyncRequests:tcpPort",
+     "server.GCAServer.launchUDPServer:udpPort"] := by decide
+
 /-- `RateLimiter.Allow` (clock read included), `registerGCA`, the datagram handler and
 `managedAuthorizeEquipment` are single critical sections: concurrent calls are sequences. -/
 theorem single_sections :
